@@ -327,9 +327,10 @@ Proof.
   replace p with (Peer (1000 + Z.of_nat j) 1 false) by congruence. cbn [p_id]. lia.
 Qed.
 
-Lemma witness_misaligned :
+(* the former misalignment witness (S7, fixed): region 101 of the second batch now keeps its own leader *)
+Lemma witness_aligned :
   let f := fold_left apply_msg (full_sync_impl witness_regions) (finit 10000 None) in
-  option_map leader (find_id (f_cache f) 101) = Some (Some (Peer 1001 1 false)).
+  option_map leader (find_id (f_cache f) 101) = Some (Some (Peer 1101 1 false)).
 Proof. vm_compute. reflexivity. Qed.
 
 (* ---------- the broadcast path: RunServer's batches decode to the notified regions ---------- *)
@@ -514,3 +515,25 @@ Proof.
   { clear. induction old as [|o l IH]; cbn; [reflexivity|]. f_equal. exact IH. }
   rewrite Eold in F. rewrite F. rewrite find_id_app. rewrite (find_id_in_set regions r Hrs Hin). reflexivity.
 Qed.
+
+(* the code as it is truncates all three accumulators (regenerated list) *)
+Lemma code_all_truncated : all_truncated Gen_C16.full_sync_truncated.
+Proof. repeat split. Qed.
+
+Theorem follower_equals_leader_for_sent_pf cap kv regions :
+  region_set regions -> leaders_valid regions ->
+  let f := fold_left apply_msg (full_sync_impl regions) (finit cap kv) in
+  forall r, In r regions -> find_id (f_cache f) (m_id (meta r)) = Some r.
+Proof.
+  intros Hs Hv. exact (follower_equals_leader_if_all_truncated_pf _ _ cap kv regions code_all_truncated Hs Hv).
+Qed.
+
+Theorem full_sync_impl_over_stale_cache_pf cap kv regions old :
+  region_set regions -> leaders_valid regions -> older_versions old regions -> region_set old ->
+  let f0 := finit cap kv in
+  let f := fold_left apply_msg (full_sync_impl regions) (FS old (f_saved f0) (f_hist f0)) in
+  forall r, In r regions -> find_id (f_cache f) (m_id (meta r)) = Some r.
+Proof.
+  intros Hs Hv Ho Hold. exact (full_sync_over_stale_cache_pf _ _ cap kv regions old code_all_truncated Hs Hv Ho Hold).
+Qed.
+
